@@ -24,7 +24,19 @@ fn clean(s: &str) -> String {
 /// an edit that should not change the version's place in the order, or moves it up a little
 fn derive(tokens: &[String], kind: u8, sel: u16) -> Vec<String> {
     let mut v = tokens.to_vec();
-    match kind % 18 {
+    match kind % 20 {
+        // 18: the last digit of a numeric token changed; 19: many zero components appended
+        18 => {
+            let nums: Vec<usize> = v.iter().enumerate().filter(|(_, t)| !t.is_empty() && t.chars().all(|c| c.is_ascii_digit())).map(|(i, _)| i).collect();
+            if !nums.is_empty() {
+                let k = nums[idx(sel, nums.len())];
+                let mut b = v[k].clone().into_bytes();
+                let l = b.len() - 1;
+                b[l] = b'0' + ((b[l] - b'0') + 1 + (sel % 9) as u8) % 10;
+                v[k] = String::from_utf8(b).unwrap();
+            }
+        }
+        19 => v.push(format!("{}{}", ".0".repeat(4 + (sel % 8) as usize), if sel % 2 == 0 { ".1" } else { "" })),
         // (12-17: edits that move the version a little: a bare modifier at the end, the last
         // token exchanged for a modifier or dropped, text behind the revision, a small number)
         12 => v.push(vergen::MODIFIERS[idx(sel, 5)].into()),
